@@ -145,14 +145,16 @@ pub fn c07(ctx: &Ctx) -> Report {
         }
         resp.push((3, Auth::Sha1(1), 2));
         resp.push((3, Auth::None, 2));
+        // long-term remote credentials (key 3) and a response sealed with them
+        resp.push((2, Auth::Sha1(3), 0));
         s.resp = resp;
-        s.set_remote = vec![1, 2];
-        s.set_local = vec![1];
+        s.set_remote = vec![1, 2, 3];
+        s.set_local = vec![0];
         s.configs = vec![1];
         runs.push(SliceRun { slice: s, depth: ctx.tier.pick(9, 12) });
     }
     let req = ["response delivered", "forged or unauthenticated response dropped, state unchanged (self-loop)", "genuine SHA-1 response delivered to an authenticated request", "genuine SHA-256 response delivered to an authenticated request", "genuine SHA-1+SHA-256 response delivered to an authenticated request", "timed out"];
-    run_slices(ctx, runs, &req, "all histories up to the depth over {send with no / SHA-1 / SHA-256 / both integrity, responses unsigned / SHA-1 under R1, R2, local key / SHA-256 under R1, R2 / both / one HMAC bit flipped x success, error x two sources, set remote credentials R1/R2 at any point (unset, set, changed mid-transaction), poll now/wake/wake+1, configure (7ms,3,0)}, <= 2 live; delivery judged by the reference HMAC; drain from every state", None)
+    run_slices(ctx, runs, &req, "all histories up to the depth over {send with no / SHA-1 / SHA-256 / both integrity, responses unsigned / SHA-1 under R1, R2, local key / SHA-256 under R1, R2 / both / one HMAC bit flipped x success, error x two sources, set remote credentials R1/R2/long-term at any point (unset, set, changed mid-transaction), set local credentials, poll now/wake/wake+1, configure (7ms,3,0)}, <= 2 live; delivery judged by the reference HMAC; drain from every state", None)
 }
 
 pub fn c15(ctx: &Ctx) -> Report {
